@@ -155,8 +155,14 @@ def run_case(case) -> Outcome:
             if cmaps[m].timestamp != c_ts[m]:
                 bad("timestamp", f"{tag}: consumer map {m} timestamp {cmaps[m].timestamp} model {c_ts[m]}")
                 return
-        if cb_log != cb_expected:
-            bad("callbacks", f"{tag}: callback log {cb_log[-6:]} model {cb_expected[-6:]}")
+        # per map: every callback once per reception, in registration order (the order in which
+        # different maps that share a COB-ID are served is not part of the property)
+        for m in range(len(maps)):
+            got_m = [e for e in cb_log if e[0] == m]
+            want_m = [e for e in cb_expected if e[0] == m]
+            if got_m != want_m:
+                bad("callbacks", f"{tag}: callbacks of map {m}: log {got_m[-6:]} model {want_m[-6:]}")
+                return
 
     for n, op in enumerate(case["ops"]):
         kind = op["op"]
